@@ -88,28 +88,11 @@ Definition route (reg : Z -> option rfn) (dflt : option rfn) (p : param) (ty : Z
   | POther _ => BadRouteParam
   end.
 
-(* ---- route functions as PROGRAMS: what a rule reads, when, and what it calls ----
-   [rfn] above says what a rule answers.  To talk about calls that overlap (several service
-   goroutines inside the route layer at once) or nest (a rule that itself routes before it
-   reads its own parameter) a rule is an arbitrary interaction tree: it reads keys of the
-   parameter it was handed, type-switches on it, calls RouteService.Route again, reaches
-   scheduling points (anything that lets another goroutine run: a lock, a channel, a
-   pre-emption) and finally returns a name or panics.  Continuations are arbitrary Coq
-   functions, so this is every deterministic Go route function that touches the routing
-   layer through these calls only. *)
+(* ---- what a rule invocation is handed and sees ---- *)
 Inductive kind := KNil | KSess | KMap.
 
 Definition kind_of (p : rparam) : kind :=
   match p with RPNil => KNil | RPSess _ => KSess | RPMap _ => KMap end.
-
-Inductive prog :=
-| PRet (r : res)                                  (* return / panic *)
-| PGet (k : Z) (c : option Z -> prog)             (* v := p.Get(k, nil); on a nil interface: panic *)
-| PKind (c : kind -> prog)                        (* switch p.(type) *)
-| PCall (ty : Z) (p : param) (c : Z -> prog)      (* n := RouteService.Route(ty, p)  (nested) *)
-| PYield (c : prog).                              (* a scheduling point *)
-
-Definition rule := Z -> prog.                     (* service type -> the program that runs *)
 
 (* what the route layer hands to a rule for a caller's parameter (None: no rule is consulted) *)
 Definition to_rparam (p : param) : option rparam :=
@@ -130,132 +113,13 @@ Inductive seen :=
 Definition sdepth (e : seen) : Z :=
   match e with VKind d _ _ | VGet d _ _ | VCall d _ _ => d end.
 
-Definition pickr (reg dflt : option rule) : option rule :=
-  match reg with Some f => Some f | None => dflt end.
-
 Definition name_of (r : res) : Z := match r with RName n => n | RPanic => empty end.
 
-Section Progs.
-  Variable rules : Z -> option rule.              (* RouteService.routes, ARBITRARY *)
-  Variable dflt : option rule.                    (* defaultRouteFunc *)
-
-  (* RouteService.Route up to the point where a rule starts running: an immediate answer, or
-     the rule's program together with the parameter wrapper made FOR THIS CALL *)
-  Definition enter (ty : Z) (p : param) : Z + (rparam * prog) :=
-    match p with
-    | PStr n => inl n
-    | POther _ => inl BadRouteParam
-    | _ =>
-        match to_rparam p, pickr (rules ty) dflt with
-        | Some rp, Some r => inr (rp, r ty)
-        | _, _ => inl MissRouteFunc
-        end
-    end.
-
-  Definition pre {A} (l : list seen) (x : option (A * list seen)) : option (A * list seen) :=
-    match x with Some (a, t) => Some (a, l ++ t) | None => None end.
-
-  (* one rule invocation at nesting depth d, given the meaning [nest] of the calls it makes *)
-  Fixpoint evalp (nest : Z -> Z -> param -> option (Z * list seen)) (d : Z) (pc : prog)
-      (ty : Z) (rp : rparam) : option (res * list seen) :=
-    match pc with
-    | PRet r => Some (r, [])
-    | PGet k c =>
-        match rp with
-        | RPNil => Some (RPanic, [])
-        | RPSess dd | RPMap dd => pre [VGet d k (dget k dd)] (evalp nest d (c (dget k dd)) ty rp)
-        end
-    | PKind c => pre [VKind d ty (kind_of rp)] (evalp nest d (c (kind_of rp)) ty rp)
-    | PCall cty p c =>
-        match nest (d + 1) cty p with
-        | None => None
-        | Some (n, t) => pre (t ++ [VCall d cty n]) (evalp nest d (c n) ty rp)
-        end
-    | PYield c => evalp nest d c ty rp
-    end.
-
-  (* RouteService.Route(ty, p) entered at depth d: the name it returns and everything the rules
-     consulted for it saw.  [fuel] bounds the NESTING depth only; None = rules that consult each
-     other deeper than that (in Go: unbounded recursion, a fatal stack overflow - not a routing
-     decision at all) *)
-  Fixpoint eval (fuel : nat) (d : Z) (ty : Z) (p : param) : option (Z * list seen) :=
-    match enter ty p with
-    | inl n => Some (n, [])
-    | inr (rp, pc) =>
-        match fuel with
-        | O => None
-        | S f =>
-            match evalp (eval f) d pc ty rp with
-            | Some (r, t) => Some (name_of r, t)
-            | None => None
-            end
-        end
-    end.
-
-  (* ---- the same, one step at a time, for several goroutines ---- *)
-  Inductive wait := W (ty : Z) (rp : rparam) (c : Z -> prog) (cty : Z).
-
-  Inductive thread :=
-  | TRun (ty : Z) (rp : rparam) (pc : prog) (stk : list wait) (tr : list seen)
-        (* the running rule: its type, ITS OWN parameter, the rest of its program; the rules
-           waiting for it (innermost first); what has been seen so far *)
-  | TDone (n : Z) (tr : list seen).
-
-  (* a rule returned n (doRoute has already turned a panic into "") *)
-  Definition ret (n : Z) (stk : list wait) (tr : list seen) : thread :=
-    match stk with
-    | [] => TDone n tr
-    | W ty rp c cty :: s => TRun ty rp (c n) s (tr ++ [VCall (Z.of_nat (length s)) cty n])
-    end.
-
-  Definition tstep (t : thread) : thread :=
-    match t with
-    | TDone _ _ => t
-    | TRun ty rp pc stk tr =>
-        let d := Z.of_nat (length stk) in
-        match pc with
-        | PRet r => ret (name_of r) stk tr
-        | PGet k c =>
-            match rp with
-            | RPNil => ret empty stk tr
-            | RPSess dd | RPMap dd => TRun ty rp (c (dget k dd)) stk (tr ++ [VGet d k (dget k dd)])
-            end
-        | PKind c => TRun ty rp (c (kind_of rp)) stk (tr ++ [VKind d ty (kind_of rp)])
-        | PCall cty p c =>
-            match enter cty p with
-            | inl n => TRun ty rp (c n) stk (tr ++ [VCall d cty n])
-            | inr (rp2, pc2) => TRun cty rp2 pc2 (W ty rp c cty :: stk) tr
-            end
-        | PYield c => TRun ty rp c stk tr
-        end
-    end.
-
-  Definition start (ty : Z) (p : param) : thread :=
-    match enter ty p with
-    | inl n => TDone n []
-    | inr (rp, pc) => TRun ty rp pc [] []
-    end.
-
-  Fixpoint iter (k : nat) (t : thread) : thread :=
-    match k with O => t | S j => iter j (tstep t) end.
-
-  (* several goroutines, one call each; a schedule names the goroutine that moves next *)
-  Fixpoint pstep (i : nat) (pool : list thread) : list thread :=
-    match pool, i with
-    | [], _ => []
-    | t :: r, O => tstep t :: r
-    | t :: r, S j => t :: pstep j r
-    end.
-
-  Definition prun (sched : list nat) (pool : list thread) : list thread :=
-    fold_left (fun pl i => pstep i pl) sched pool.
-
-  Fixpoint ncount (i : nat) (l : list nat) : nat :=
-    match l with [] => O | x :: r => ((if Nat.eqb x i then 1 else 0) + ncount i r)%nat end.
-End Progs.
-
-(* nesting depth the executable model follows (the harness refuses deeper scripts) *)
+(* nesting depth the big-step meaning follows; steps / scheduler turns the executable model of
+   calls in flight follows (the harness refuses deeper / longer scripts) *)
 Definition NEST_FUEL : nat := 8.
+Definition STEP_FUEL : nat := 2000.
+Definition TURN_FUEL : nat := 400.
 
 (* ---- cluster views ---- *)
 Inductive node := Node (id addr state : Z) (svcs : list (list Z)).
@@ -317,9 +181,6 @@ Definition default_route (v : view) (ty : Z) : Z :=
 
 Definition app_default (v : view) : rfn := fun ty _ => RName (default_route v ty).
 
-(* the same as a program: it never looks at its parameter and calls nothing *)
-Definition app_rule (v : view) : rule := fun ty => PRet (RName (default_route v ty)).
-
 (* node/app.RoutePID: [] = nil *)
 Definition route_pid (reg : Z -> option rfn) (dflt : option rfn) (v : view) (ty : Z) (p : param)
   : list pid :=
@@ -379,28 +240,315 @@ Definition call_key (c : pcall) : option (Z * param) :=
       end
   end.
 
-(* everything the rules consulted for one call saw *)
-Definition call_trace (rules : Z -> option rule) (dflt : option rule) (c : pcall)
-  : option (list seen) :=
-  match call_key c with
-  | None => Some []
-  | Some (ty, p) => option_map snd (eval rules dflt NEST_FUEL 0 ty p)
+(* ---- route functions as PROGRAMS: what a rule reads, when, what it calls and registers ----
+   [rfn] above says what a rule answers.  To talk about calls that overlap (several service
+   goroutines inside the route layer at once), nest (a rule that itself routes before it reads
+   its own parameter) or change the rules while calls are in flight (RouteService.Register at
+   run time, by a rule or by another goroutine), a rule is an arbitrary interaction tree: it
+   reads keys of the parameter it was handed, type-switches on it, calls RouteService.Route
+   again, calls RouteService.Register, reaches scheduling points (anything that lets another
+   goroutine run: a lock, a channel, a pre-emption) and finally returns a name or panics.
+   Continuations are arbitrary Coq functions, so this is every deterministic Go route function
+   that touches the routing layer through these calls only.  F is the representation of
+   registered functions (what Register is handed). *)
+Inductive prog (F : Type) :=
+| PRet (r : res)                                    (* return / panic *)
+| PGet (k : Z) (c : option Z -> prog F)             (* v := p.Get(k, nil); on a nil interface: panic *)
+| PKind (c : kind -> prog F)                        (* switch p.(type) *)
+| PCall (ty : Z) (p : param) (c : Z -> prog F)      (* n := RouteService.Route(ty, p)  (nested) *)
+| PReg (ty : Z) (f : option F) (c : prog F)         (* RouteService.Register(ty, f)  (None = nil) *)
+| PYield (c : prog F).                              (* a scheduling point *)
+
+Arguments PRet {F} r.
+Arguments PGet {F} k c.
+Arguments PKind {F} c.
+Arguments PCall {F} ty p c.
+Arguments PReg {F} ty f c.
+Arguments PYield {F} c.
+
+Definition rule (F : Type) := Z -> prog F.          (* service type -> the program that runs *)
+
+Definition pickr {F} (reg dflt : option (rule F)) : option (rule F) :=
+  match reg with Some f => Some f | None => dflt end.
+
+(* RouteService.Register: routes[ty] = f; a nil function reads as "none registered" *)
+Definition treg {F} (ty : Z) (f : option F) (tab : alist F) : alist F :=
+  match f with Some x => aset ty x tab | None => adel ty tab end.
+
+(* node/app.defaultRoute as a program: it never looks at its parameter and calls nothing *)
+Definition app_rule {F} (v : view) : rule F := fun ty => PRet (RName (default_route v ty)).
+
+Fixpoint upd {A} (i : nat) (x : A) (l : list A) : list A :=
+  match l, i with
+  | [], _ => []
+  | _ :: r, O => x :: r
+  | y :: r, S j => y :: upd j x r
   end.
+
+Section Progs.
+  Variable F : Type.
+  Variable pinterp : F -> rule F.                   (* how a registered function runs, ARBITRARY *)
+  Variable dflt : option (rule F).                  (* defaultRouteFunc *)
+
+  (* RouteService.Route up to the point where a rule starts running: an immediate answer, or
+     the rule registered NOW and the parameter wrapper made FOR THIS CALL *)
+  Definition enter (tab : alist F) (ty : Z) (p : param) : Z + (rparam * prog F) :=
+    match p with
+    | PStr n => inl n
+    | POther _ => inl BadRouteParam
+    | _ =>
+        match to_rparam p, pickr (option_map pinterp (aget ty tab)) dflt with
+        | Some rp, Some r => inr (rp, r ty)
+        | _, _ => inl MissRouteFunc
+        end
+    end.
+
+  Definition pre {A} (l : list seen) (x : option (A * list seen * alist F))
+    : option (A * list seen * alist F) :=
+    match x with Some (a, t, tb) => Some (a, l ++ t, tb) | None => None end.
+
+  (* one rule invocation at nesting depth d started with the registered rules [tab], given the
+     meaning [nest] of the calls it makes; yields its answer, what was seen, the rules after *)
+  Fixpoint evalp (nest : alist F -> Z -> Z -> param -> option (Z * list seen * alist F))
+      (tab : alist F) (d : Z) (pc : prog F) (ty : Z) (rp : rparam)
+      : option (res * list seen * alist F) :=
+    match pc with
+    | PRet r => Some (r, [], tab)
+    | PGet k c =>
+        match rp with
+        | RPNil => Some (RPanic, [], tab)
+        | RPSess dd | RPMap dd =>
+            pre [VGet d k (dget k dd)] (evalp nest tab d (c (dget k dd)) ty rp)
+        end
+    | PKind c => pre [VKind d ty (kind_of rp)] (evalp nest tab d (c (kind_of rp)) ty rp)
+    | PCall cty p c =>
+        match nest tab (d + 1) cty p with
+        | None => None
+        | Some (n, t, tab1) => pre (t ++ [VCall d cty n]) (evalp nest tab1 d (c n) ty rp)
+        end
+    | PReg rty f c => evalp nest (treg rty f tab) d c ty rp
+    | PYield c => evalp nest tab d c ty rp
+    end.
+
+  (* RouteService.Route(ty, p) entered at depth d, made alone: the name it returns, everything
+     the rules consulted for it saw, the registered rules afterwards.  [fuel] bounds the NESTING
+     depth only; None = rules that consult each other deeper than that (in Go: unbounded
+     recursion, a fatal stack overflow - not a routing decision at all) *)
+  Fixpoint eval (fuel : nat) (tab : alist F) (d : Z) (ty : Z) (p : param)
+      : option (Z * list seen * alist F) :=
+    match enter tab ty p with
+    | inl n => Some (n, [], tab)
+    | inr (rp, pc) =>
+        match fuel with
+        | O => None
+        | S f =>
+            match evalp (eval f) tab d pc ty rp with
+            | Some (r, t, tab1) => Some (name_of r, t, tab1)
+            | None => None
+            end
+        end
+    end.
+
+  (* ---- the same, one step at a time, for several goroutines sharing the registered rules ---- *)
+  Inductive wait := W (ty : Z) (rp : rparam) (c : Z -> prog F) (cty : Z).
+
+  Inductive thread :=
+  | TInit (k : option (Z * param))
+        (* a service goroutine about to make its call; None: a call that never reaches the
+           route layer (malformed route) *)
+  | TRun (ty : Z) (rp : rparam) (pc : prog F) (stk : list wait) (tr : list seen)
+        (* the running rule: its type, ITS OWN parameter, the rest of its program; the rules
+           waiting for it (innermost first); what has been seen so far *)
+  | TDone (n : Z) (tr : list seen).
+
+  (* a rule returned n (doRoute has already turned a panic into "") *)
+  Definition ret (n : Z) (stk : list wait) (tr : list seen) : thread :=
+    match stk with
+    | [] => TDone n tr
+    | W ty rp c cty :: s => TRun ty rp (c n) s (tr ++ [VCall (Z.of_nat (length s)) cty n])
+    end.
+
+  Definition begin (tab : alist F) (k : option (Z * param)) : thread :=
+    match k with
+    | None => TDone empty []
+    | Some (ty, p) =>
+        match enter tab ty p with
+        | inl n => TDone n []
+        | inr (rp, pc) => TRun ty rp pc [] []
+        end
+    end.
+
+  (* one step of one goroutine: it reads and writes the registered rules and its OWN state,
+     nothing else; it is never refused (nothing in the route layer waits for another call) *)
+  Definition tstep (tab : alist F) (t : thread) : alist F * thread :=
+    match t with
+    | TInit k => (tab, begin tab k)
+    | TDone _ _ => (tab, t)
+    | TRun ty rp pc stk tr =>
+        let d := Z.of_nat (length stk) in
+        match pc with
+        | PRet r => (tab, ret (name_of r) stk tr)
+        | PGet k c =>
+            match rp with
+            | RPNil => (tab, ret empty stk tr)
+            | RPSess dd | RPMap dd =>
+                (tab, TRun ty rp (c (dget k dd)) stk (tr ++ [VGet d k (dget k dd)]))
+            end
+        | PKind c => (tab, TRun ty rp (c (kind_of rp)) stk (tr ++ [VKind d ty (kind_of rp)]))
+        | PCall cty p c =>
+            match enter tab cty p with
+            | inl n => (tab, TRun ty rp (c n) stk (tr ++ [VCall d cty n]))
+            | inr (rp2, pc2) => (tab, TRun cty rp2 pc2 (W ty rp c cty :: stk) tr)
+            end
+        | PReg rty f c => (treg rty f tab, TRun ty rp c stk tr)
+        | PYield c => (tab, TRun ty rp c stk tr)
+        end
+    end.
+
+  Fixpoint iter (k : nat) (s : alist F * thread) : alist F * thread :=
+    match k with O => s | S j => iter j (tstep (fst s) (snd s)) end.
+
+  (* a schedule: which goroutine moves next, or a Register made by a goroutine that is not
+     routing (rules added or replaced at run time) *)
+  Inductive xentry := XRun (i : nat) | XReg (ty : Z) (f : option F).
+
+  Definition pexec (st : alist F * list thread) (e : xentry) : alist F * list thread :=
+    match e with
+    | XReg ty f => (treg ty f (fst st), snd st)
+    | XRun i =>
+        match nth_error (snd st) i with
+        | None => st
+        | Some t => (fst (tstep (fst st) t), upd i (snd (tstep (fst st) t)) (snd st))
+        end
+    end.
+
+  Definition prun (sched : list xentry) (st : alist F * list thread) : alist F * list thread :=
+    fold_left pexec sched st.
+
+  Definition is_run (e : xentry) : bool := match e with XRun _ => true | XReg _ _ => false end.
+
+  Fixpoint ncount (i : nat) (l : list xentry) : nat :=
+    match l with
+    | [] => O
+    | XRun x :: r => ((if Nat.eqb x i then 1 else 0) + ncount i r)%nat
+    | XReg _ _ :: r => ncount i r
+    end.
+
+  (* ---- the scheduler of the harness, executable: goroutines run one at a time from one
+     scheduling point to the next ---- *)
+  Inductive sentry :=
+  | SRun (i : Z)                        (* goroutine (i mod n) runs, if it is still in its call *)
+  | SReg (ty : Z) (f : option F).       (* another goroutine calls Register(ty, f) *)
+
+  Definition is_done (t : thread) : bool := match t with TDone _ _ => true | _ => false end.
+  Definition at_yield (t : thread) : bool :=
+    match t with TRun _ _ (PYield _) _ _ => true | _ => false end.
+
+  (* run a goroutine until it has passed a scheduling point or its call has returned *)
+  Fixpoint macro (fuel : nat) (tab : alist F) (t : thread) : option (alist F * thread) :=
+    match fuel with
+    | O => None
+    | S f =>
+        if is_done t then Some (tab, t)
+        else if at_yield t then Some (tstep tab t)
+        else macro f (fst (tstep tab t)) (snd (tstep tab t))
+    end.
+
+  (* registered rules, goroutines, and for each goroutine the rules registered when it made
+     its call *)
+  Definition sst := (alist F * list thread * list (alist F))%type.
+
+  Definition all_done (pool : list thread) : bool := forallb is_done pool.
+  Definition done_at (pool : list thread) (i : nat) : bool :=
+    match nth_error pool i with Some t => is_done t | None => true end.
+
+  Definition run_one (i : nat) (st : sst) : option sst :=
+    let '(tab, pool, ent) := st in
+    match nth_error pool i with
+    | None => Some st
+    | Some t =>
+        match macro STEP_FUEL tab t with
+        | None => None
+        | Some (tab', t') =>
+            Some (tab', upd i t' pool, match t with TInit _ => upd i tab ent | _ => ent end)
+        end
+    end.
+
+  (* the schedule an OCalls carries; entries are consumed while a call is in flight *)
+  Fixpoint sim_sched (sched : list sentry) (st : sst) : option sst :=
+    match sched with
+    | [] => Some st
+    | e :: r =>
+        let '(tab, pool, ent) := st in
+        if all_done pool then Some st
+        else match e with
+             | SReg ty f => sim_sched r (treg ty f tab, pool, ent)
+             | SRun k =>
+                 let i := Z.to_nat (k mod Z.of_nat (length pool)) in
+                 if done_at pool i then sim_sched r st
+                 else match run_one i st with
+                      | None => None
+                      | Some st' => sim_sched r st'
+                      end
+             end
+    end.
+
+  (* then round-robin until every call has returned *)
+  Fixpoint sim_rr (fuel : nat) (rr : nat) (st : sst) : option sst :=
+    let '(tab, pool, ent) := st in
+    if all_done pool then Some st
+    else match fuel with
+         | O => None
+         | S f =>
+             let i := Nat.modulo rr (length pool) in
+             if done_at pool i then sim_rr f (S rr) st
+             else match run_one i st with
+                  | None => None
+                  | Some st' => sim_rr f (S rr) st'
+                  end
+         end.
+
+  Definition sim (tab : alist F) (ks : list (option (Z * param))) (sched : list sentry)
+    : option sst :=
+    match sim_sched sched (tab, map TInit ks, map (fun _ => tab) ks) with
+    | None => None
+    | Some st => sim_rr TURN_FUEL 0 st
+    end.
+End Progs.
+
+Arguments W {F} ty rp c cty.
+Arguments TInit {F} k.
+Arguments TRun {F} ty rp pc stk tr.
+Arguments TDone {F} n tr.
+Arguments XRun {F} i.
+Arguments XReg {F} ty f.
+Arguments SRun {F} i.
+Arguments SReg {F} ty f.
+Arguments pre {F A} l x.
+Arguments evalp {F} nest tab d pc ty rp.
+Arguments ret {F} n stk tr.
+Arguments is_done {F} t.
+Arguments at_yield {F} t.
+Arguments is_run {F} e.
+Arguments ncount {F} i l.
+Arguments all_done {F} pool.
+Arguments done_at {F} pool i.
 
 (* ---- the state machine, for any representation F of route functions ----
    interp f  : what the function answers (Z -> rparam -> res)
-   pinterp f : how it gets there (reads, nested calls, scheduling points) *)
+   pinterp f : how it gets there (reads, nested calls, registrations, scheduling points) *)
 Section Machine.
   Variable F : Type.
   Variable interp : F -> rfn.
-  Variable pinterp : F -> rule.
+  Variable pinterp : F -> rule F.
 
   Inductive dmode :=
   | DApp              (* node/app's defaultRoute (installed by its init) *)
   | DNone             (* route.SetDefaultRoute(nil) *)
   | DFn (f : F).      (* route.SetDefaultRoute(f) *)
 
-  Record st := St { s_fns : alist F; s_dflt : dmode; s_view : view }.
+  (* s_self: the address this node knows as its own (Cluster.InitSelf; -1 = not set) *)
+  Record st := St { s_fns : alist F; s_dflt : dmode; s_view : view; s_self : Z }.
 
   Inductive op :=
   | OReg (ty : Z) (f : option F)        (* RouteService.Register(ty, f)  (None = nil func) *)
@@ -414,9 +562,11 @@ Section Machine.
   | OKick (front : Z)                   (* app.Kick(ns, front, id, cb) *)
   | OWork (ty : Z)                      (* names of app.GetWorkServices(ty) *)
   | OList (ty : Z)                      (* names of app.GetServices(ty) *)
-  | OCalls (cs : list pcall) (sched : list Z).
-      (* one call per service goroutine, all in flight together; [sched] is the order in which
-         the goroutines are let run from one scheduling point to the next *)
+  | OCalls (cs : list pcall) (sched : list (sentry F))
+      (* one call per service goroutine, all in flight together; [sched] says which goroutine
+         is let run from one scheduling point to the next, and where other goroutines
+         Register meanwhile *)
+  | OSelf (a : Z).                      (* Cluster.InitSelf(address a, ...): which node asks *)
 
   (* what the model says an operation shows *)
   Inductive mout :=
@@ -426,26 +576,23 @@ Section Machine.
   | MOut (o : outcome)
   | MNames (l : list Z)
   | MCalls (l : list (mout * option (list seen))).
-      (* per call: what it shows and what its rules saw (None: nesting beyond NEST_FUEL) *)
+      (* per call: what it shows and what its rules saw (None: beyond the fuel) *)
 
-  Definition init : st := St [] DApp [].
+  Definition init : st := St [] DApp [] (-1).
 
-  Definition reg_of (s : st) : Z -> option rfn :=
-    fun ty => option_map interp (aget ty (s_fns s)).
+  Definition reg_in (tab : alist F) : Z -> option rfn :=
+    fun ty => option_map interp (aget ty tab).
 
-  Definition dflt_of (s : st) : option rfn :=
-    match s_dflt s with
-    | DApp => Some (app_default (s_view s))
+  Definition dflt_in (d : dmode) (v : view) : option rfn :=
+    match d with
+    | DApp => Some (app_default v)
     | DNone => None
     | DFn f => Some (interp f)
     end.
 
-  Definition rules_of (s : st) : Z -> option rule :=
-    fun ty => option_map pinterp (aget ty (s_fns s)).
-
-  Definition pdflt_of (s : st) : option rule :=
-    match s_dflt s with
-    | DApp => Some (app_rule (s_view s))
+  Definition pdflt_in (d : dmode) (v : view) : option (rule F) :=
+    match d with
+    | DApp => Some (app_rule v)
     | DNone => None
     | DFn f => Some (pinterp f)
     end.
@@ -459,10 +606,10 @@ Section Machine.
     end.
 
   (* what a single call shows: a function of the registered functions, the default and the
-     CURRENT view only *)
+     CURRENT view only - never of the address of the node that asks *)
   Definition out1 (reg : Z -> option rfn) (dflt : option rfn) (v : view) (o : op) : mout :=
     match o with
-    | OReg _ _ | ODefault _ | OUpdate _ => MUnit
+    | OReg _ _ | ODefault _ | OUpdate _ | OSelf _ => MUnit
     | OCalls _ _ => MCalls []          (* not a single call: see [out] *)
     | ORoute ty p => MName (route reg dflt p ty)
     | ORoutePID ty p => MPid (route_pid reg dflt v ty p)
@@ -474,27 +621,63 @@ Section Machine.
     | OList ty => MNames (map it_name (type_list v ty))
     end.
 
-  (* calls in flight together: EACH shows exactly what it shows when made alone, and its rules
-     see exactly what they see when it is made alone - whatever the schedule *)
-  Definition out (reg : Z -> option rfn) (dflt : option rfn) (rules : Z -> option rule)
-      (pdflt : option rule) (v : view) (o : op) : mout :=
+  Definition seen_of (t : thread F) : option (list seen) :=
+    match t with TDone _ tr => Some tr | _ => None end.
+
+  (* calls in flight together: EACH shows exactly what it shows when made alone with the rules
+     registered at the moment it is made, and its rules see exactly its own parameter *)
+  Definition calls_out (tab : alist F) (d : dmode) (v : view) (cs : list pcall)
+      (sched : list (sentry F)) : list (mout * option (list seen)) :=
+    match sim F pinterp (pdflt_in d v) tab (map call_key cs) sched with
+    | None => map (fun _ => (MUnit, None)) cs
+    | Some (_, pool, ent) =>
+        map (fun x => (out1 (reg_in (snd (snd x))) (dflt_in d v) v (op_of_call (fst x)),
+                       seen_of (fst (snd x))))
+            (combine cs (combine pool ent))
+    end.
+
+  Definition out (tab : alist F) (d : dmode) (v : view) (o : op) : mout :=
     match o with
-    | OCalls cs _ =>
-        MCalls (map (fun c => (out1 reg dflt v (op_of_call c), call_trace rules pdflt c)) cs)
-    | _ => out1 reg dflt v o
+    | OCalls cs sched => MCalls (calls_out tab d v cs sched)
+    | _ => out1 (reg_in tab) (dflt_in d v) v o
+    end.
+
+  (* the (type, parameter) a single-call op hands to the route layer *)
+  Definition op_key (o : op) : option (Z * param) :=
+    match o with
+    | ORoute ty p | ORoutePID ty p => Some (ty, p)
+    | ORequest r p | ONotify r p => call_key (CRequest r p)
+    | _ => None
+    end.
+
+  (* the registered functions after an operation: rules that ran may have registered *)
+  Definition fns_after (tab : alist F) (d : dmode) (v : view) (o : op) : alist F :=
+    match o with
+    | OReg ty f => treg ty f tab
+    | OCalls cs sched =>
+        match sim F pinterp (pdflt_in d v) tab (map call_key cs) sched with
+        | Some (tab', _, _) => tab'
+        | None => tab
+        end
+    | _ =>
+        match op_key o with
+        | Some (ty, p) =>
+            match eval F pinterp (pdflt_in d v) NEST_FUEL tab 0 ty p with
+            | Some (_, _, tab') => tab'
+            | None => tab
+            end
+        | None => tab
+        end
     end.
 
   Definition next (s : st) (o : op) : st :=
-    match o with
-    | OReg ty (Some f) => St (aset ty f (s_fns s)) (s_dflt s) (s_view s)
-    | OReg ty None => St (adel ty (s_fns s)) (s_dflt s) (s_view s)
-    | ODefault d => St (s_fns s) d (s_view s)
-    | OUpdate v => St (s_fns s) (s_dflt s) v
-    | _ => s
-    end.
+    St (fns_after (s_fns s) (s_dflt s) (s_view s) o)
+       (match o with ODefault d => d | _ => s_dflt s end)
+       (match o with OUpdate v => v | _ => s_view s end)
+       (match o with OSelf a => a | _ => s_self s end).
 
   Definition step (s : st) (o : op) : st * mout :=
-    (next s o, out (reg_of s) (dflt_of s) (rules_of s) (pdflt_of s) (s_view s) o).
+    (next s o, out (s_fns s) (s_dflt s) (s_view s) o).
 
   Fixpoint run_from (s : st) (ops : list op) : st * list mout :=
     match ops with
@@ -513,10 +696,11 @@ End Machine.
 Arguments DApp {F}.
 Arguments DNone {F}.
 Arguments DFn {F} f.
-Arguments St {F} s_fns s_dflt s_view.
+Arguments St {F} s_fns s_dflt s_view s_self.
 Arguments s_fns {F} s.
 Arguments s_dflt {F} s.
 Arguments s_view {F} s.
+Arguments s_self {F} s.
 Arguments OReg {F} ty f.
 Arguments ODefault {F} d.
 Arguments OUpdate {F} v.
@@ -529,15 +713,19 @@ Arguments OKick {F} front.
 Arguments OWork {F} ty.
 Arguments OList {F} ty.
 Arguments OCalls {F} cs sched.
+Arguments OSelf {F} a.
 Arguments init {F}.
-Arguments reg_of {F} interp s ty.
-Arguments dflt_of {F} interp s.
-Arguments rules_of {F} pinterp s ty.
-Arguments pdflt_of {F} pinterp s.
+Arguments reg_in {F} interp tab ty.
+Arguments dflt_in {F} interp d v.
+Arguments pdflt_in {F} pinterp d v.
 Arguments op_of_call {F} c.
+Arguments op_key {F} o.
 Arguments out1 {F} reg dflt v o.
-Arguments out {F} reg dflt rules pdflt v o.
-Arguments next {F} s o.
+Arguments seen_of {F} t.
+Arguments calls_out {F} interp pinterp tab d v cs sched.
+Arguments out {F} interp pinterp tab d v o.
+Arguments fns_after {F} pinterp tab d v o.
+Arguments next {F} pinterp s o.
 Arguments step {F} interp pinterp s o.
 Arguments run_from {F} interp pinterp s ops.
 Arguments run {F} interp pinterp ops.
@@ -545,12 +733,7 @@ Arguments final {F} interp pinterp ops.
 Arguments obs_at {F} interp pinterp h o.
 
 (* ---- scripted route functions: the representation the harness uses ----
-   Go (harness/c07/script.go) builds a real route.RouteFunc from the same data. *)
-Inductive act :=
-| AYield                       (* a scheduling point: lets the other goroutines run *)
-| ACall (ty : Z) (p : param)   (* route.GetRouteService().Route(ty, p); the answer is only recorded *)
-| AGet (k : Z).                (* p.Get(key k, nil); the value is only recorded *)
-
+   Go (harness/c07/calls.go) builds a real route.RouteFunc from the same data. *)
 Inductive script :=
 | SConst (r : res)
     (* ignores its arguments *)
@@ -562,7 +745,12 @@ Inductive script :=
 | STy (tbl : list (Z * res)) (miss : res)
     (* depends on the service type only (a default function shared by all types) *)
 | SPre (pre : list act) (s : script)
-    (* first does [pre], then behaves as s *).
+    (* first does [pre], then behaves as s *)
+with act :=
+| AYield                           (* a scheduling point: lets the other goroutines run *)
+| ACall (ty : Z) (p : param)       (* route.GetRouteService().Route(ty, p); the answer is only recorded *)
+| AGet (k : Z)                     (* p.Get(key k, nil); the value is only recorded *)
+| AReg (ty : Z) (f : option script).  (* route.GetRouteService().Register(ty, f) *)
 
 Definition is_get (a : act) : bool := match a with AGet _ => true | _ => false end.
 
@@ -590,15 +778,16 @@ Fixpoint interp_script (s : script) : rfn := fun ty p =>
 
 (* the same functions as programs; every scripted function first looks at the kind of its
    parameter (the Go closure records it) *)
-Fixpoint pre_prog (pre : list act) (k : prog) : prog :=
+Fixpoint pre_prog (pre : list act) (k : prog script) : prog script :=
   match pre with
   | [] => k
   | AYield :: r => PYield (pre_prog r k)
   | ACall cty p :: r => PCall cty p (fun _ => pre_prog r k)
   | AGet key :: r => PGet key (fun _ => pre_prog r k)
+  | AReg rty f :: r => PReg rty f (pre_prog r k)
   end.
 
-Fixpoint body (s : script) (ty : Z) : prog :=
+Fixpoint body (s : script) (ty : Z) : prog script :=
   match s with
   | SConst r => PRet r
   | SKey k tbl miss nokey =>
@@ -611,7 +800,7 @@ Fixpoint body (s : script) (ty : Z) : prog :=
   | SPre pre s' => pre_prog pre (body s' ty)
   end.
 
-Definition prog_of_script (s : script) : rule := fun ty => PKind (fun _ => body s ty).
+Definition prog_of_script (s : script) : rule script := fun ty => PKind (fun _ => body s ty).
 
 (* ---- what the harness observes on the real code ---- *)
 Inductive obs :=
@@ -621,6 +810,7 @@ Inductive obs :=
 | BEvents (l : list event)
 | BNames (l : list Z)
 | BPanic                           (* a panic escaped the call (the model never allows it) *)
+| BHang                            (* the call never returned (the model never allows it) *)
 | BCalls (l : list (obs * list seen)).
     (* per call of an OCalls: its own observation and, in order, what each rule invocation
        made for it was handed / read / got back *)
